@@ -205,7 +205,10 @@ def check(ctx):
     rt = rs.ret()
     seq = []
     for cfg_t, inl in (flatten(rt) if rt is not None else []):
-        if is_call(cfg_t, mk):
+        # (the alias partial(EpochConfig, optional=None) is read through: a config is a call
+        # of EpochConfig whose `optional` is None)
+        if is_call(cfg_t, mk) or (is_call(cfg_t, "liesel.goose.epoch.EpochConfig")
+                                  and dict(cfg_t[3]).get("optional", c(None)) == c(None)):
             p = parts(cfg_t)
             seq.append((p["type"][1].rsplit(".", 1)[-1], p["duration"], p["thinning"], (), inl))
         else:
